@@ -102,14 +102,15 @@ DICTS_FULL = [dct(), dct(("k", num(1.0))), dct(("a", num(1.0)), ("b", txt("x")))
 OTHERS = [TRUE, FALSE, NULL, OBJ, FUNC, CLASS, EXC]
 
 POOL_FULL = NUMS_FULL + TEXTS_FULL + LISTS_FULL + DICTS_FULL + OTHERS + [GO, SELF, lst(SELF)]
-POOL_QUICK = [num(0.0, "0"), num(1.0, "1"), num(-10.0, "-10"), num(1.5, "1.5"), num(NAN, "{无穷 - 无穷}"),
+POOL_QUICK = [num(0.0, "0"), num(1.0, "1"), num(2.0, "2"), num(3.0, "3"), num(4.0, "4"), num(-10.0, "-10"), num(1.5, "1.5"), num(NAN, "{无穷 - 无穷}"),
               num(2.0 ** 63, "9223372036854775808"), txt(""), txt("abc"), txt("中a😀"), TRUE, NULL,
               lst(num(1.0), num(2.0), num(3.0)), dct(("k", num(1.0))), OBJ, SELF, lst(SELF)]
 
 RECEIVERS = {
     "Array": [lst(), lst(num(1.0), num(2.0), num(3.0)), lst(txt("a"), txt("b")), lst(lst(num(1.0)), NULL, dct(("k", TRUE)))],
     "HashMap": [dct(), dct(("k", num(1.0))), dct(("k", dct(("k", num(2.0)))), ("j", txt("x")))],
-    "String": [txt(""), txt("abc"), txt("中a😀"), txt("1*^5")],
+    "String": [txt(""), txt("abc"), txt("中a😀"), txt("1*^5"),
+               {"t": "strbytes", "hex": "61ffe4b862"}, {"t": "strbytes", "hex": "eda080c0aff09080e4b8adf4908080"}],
     "Number": [num(0.0, "0"), num(1.5, "1.5"), num(NAN, "{无穷 - 无穷}"), num(-1.0, "-1"), num(1e308, "1*10^308")],
     "Bool": [TRUE, FALSE],
     "Null": [NULL],
@@ -157,6 +158,9 @@ def enc_val(d):
     t = d["t"]
     if t == "num":
         return [2, canon_bits(d["bits"])]
+    if t == "strbytes":
+        b = list(bytes.fromhex(d["hex"]))
+        return [3, len(b)] + b
     if t == "str":
         b = d["bytes"] if "bytes" in d else utf8(d["v"])
         return [3, len(b)] + list(b)
@@ -183,6 +187,8 @@ def coq_val(d):
     t = d["t"]
     if t == "num":
         return "(N %d)" % int(d["bits"], 16)
+    if t == "strbytes":
+        return "(VStr %s)" % core.zlist(bytes.fromhex(d["hex"]))
     if t == "str":
         return "(VStr %s)" % core.zlist(utf8(d["v"]))
     if t == "bool":
@@ -727,7 +733,7 @@ def compare_model(case, o, m):
         oke = kind == "error" and err.get("class") == "signal" and err.get("code") == 4
         if not (okv or oke):
             return "expected a value of type %d or an exception, observed %s" % (mo[1], json.dumps(o, ensure_ascii=False)[:160])
-    if mr != [-1] and "recv_after" in o and case["recv"].get("t") not in ("global", "libfn", "stdclass", "stdobj", "class", "obj", "func"):
+    if mr != [-1] and "recv_after" in o and case["recv"].get("t") not in ("global", "libfn", "stdclass", "stdobj", "class", "obj", "func", "strbytes"):
         if enc_val(o["recv_after"]) != mr:
             return "receiver afterwards: expected %s, observed %s" % (str(mr)[:120], str(enc_val(o["recv_after"]))[:120])
     return None
